@@ -105,7 +105,7 @@ def Path.all : List Path := [.sequential, .afterSeek, .lazyDictionary, .readDict
 
 /-- the Go function of file.go through which this path asks for the page body … -/
 def Path.entry : Path → String
-  | .sequential | .afterSeek => "FilePages.ReadPage"
+  | .sequential | .afterSeek => "FilePages.readPageInSequence"
   | .lazyDictionary | .readDictionaryAPI => "FilePages.readDictionary"
 
 /-- … and the function that fills the page buffer from the reader for it (names as extracted by
